@@ -15,6 +15,7 @@ pub struct Tr {
     muted: bool,
     /// mark `compressed` events of the current case as coming from a twice-repeated input
     pub redundant: bool,
+    dir: String,
 }
 
 impl Tr {
@@ -27,7 +28,7 @@ impl Tr {
             paths.push(p);
         }
         let n = w.len();
-        Tr { w, sz: vec![0; n], cur: 0, events: 0, cases: 0, paths, only: None, muted: false, redundant: false }
+        Tr { w, sz: vec![0; n], cur: 0, events: 0, cases: 0, paths, only: None, muted: false, redundant: false, dir: dir.to_string() }
     }
     pub fn ev(&mut self, v: Value) {
         if self.muted {
@@ -60,6 +61,8 @@ impl Tr {
             }
         }
         self.cases += 1;
+        // crash marker: which case was running if the process dies (guard-page fault, abort)
+        let _ = std::fs::write(format!("{}/current_case", self.dir), id);
         self.ev(v);
     }
     pub fn finish(mut self) -> Value {
